@@ -73,6 +73,8 @@ def cases(tier, seed):
         out.append({"id": "routing-" + e1.fv_id(fv), "kind": "routing", "fv": fv, "seed": seed, "sim": False})
     # one Python callable registered under several function names (each name has its own parameter values)
     out.append({"id": "routing-shared-callable", "kind": "routing", "fv": dict(family.BASE), "seed": seed, "sim": True, "shared_callable": True})
+    # a KEYWORD-ONLY parameter with a Python default: it is a parameter like any other (template + routing)
+    out.append({"id": "routing-keyword-only-parameter", "kind": "routing", "fv": dict(family.BASE), "seed": seed, "sim": True, "shared_callable": True, "kwonly": True})
     return out
 
 
@@ -166,7 +168,7 @@ def _run_routing(case):
     if not b.valid:
         return outcome(status="skipped", skip_reason="invalid-combo", nontrivial=False)
     if case.get("shared_callable"):
-        b = _shared_callable_model(case["seed"])
+        b = _shared_callable_model(case["seed"], kwonly=bool(case.get("kwonly")))
     base = b.params("perturbed", 0.9)  # pairwise distinct leaves
     leaves = [(f, p) for f in b.P for p in b.P[f]]
     viols, states, traces, dig = [], 0, 0, []
@@ -242,11 +244,12 @@ class _Shared:
 
     valid = True
 
-    def __init__(self, seed):
+    def __init__(self, seed, kwonly=False):
         self.seed = seed
+        usig = "s, w, d, c, inc, bonus, *, a=0.25" if kwonly else "s, w, d, c, inc, bonus, a"
         src = (
             "def scaled(d, factor):\n    return d * factor + 0.1 * factor\n\n"
-            "def utility(s, w, d, c, inc, bonus, a):\n    return jnp.log(c) + a * 0.31 * d * (s + 1) + 0.0137 * w * (1 + 0.5 * s) + 0.05 * inc - 0.02 * bonus * s\n\n"
+            f"def utility({usig}):\n    return jnp.log(c) + a * 0.31 * d * (s + 1) + 0.0137 * w * (1 + 0.5 * s) + 0.05 * inc - 0.02 * bonus * s\n\n"
             "def c_constraint(c, w):\n    return c <= w + 0.2371\n\n"
             "def sd_filter(s, d):\n    return jnp.logical_or(d == 0, s < 2)\n\n"
             "def next_s(s, d):\n    return jnp.clip(s + d, 0, 2)\n\n"
@@ -266,8 +269,8 @@ class _Shared:
         return e1.gen_params(self.P, self.shocks, self.seed, variant, beta)
 
 
-def _shared_callable_model(seed):
-    return _Shared(seed)
+def _shared_callable_model(seed, kwonly=False):
+    return _Shared(seed, kwonly)
 
 
 def run_case(case):
